@@ -49,6 +49,11 @@ func genC06(t *tape.Tape, tier string) any {
 		}
 	}
 	c.MITM = t.Chance(1, 10)
+	if mode != 0 && kind != "socks5" && t.Chance(1, 4) {
+		// the upstream proxy resets the first connection(s) it accepts: the hop's preamble (with its credentials) is
+		// then in flight, half written or not written at all when the connection dies, and later requests follow
+		c.FlakyProxy = 1 + t.Pick(3, 1)
+	}
 	// site credentials
 	nSite := t.Pick(2, 3, 3, 2)
 	nConns := 1 + t.Pick(5, 3, 1)
@@ -77,7 +82,7 @@ func genC06(t *tape.Tape, tier string) any {
 			if pc.MITMHost != "" {
 				r.Form = "origin"
 				port = []string{"", ":443", ":8443"}[t.Pick(4, 2, 2)]
-			} else if t.Chance(1, 5) && i == n-1 {
+			} else if (t.Chance(1, 5) || c.FlakyProxy > 0 && t.Chance(2, 3)) && i == n-1 {
 				r.Kind, r.Method = "connect", ""
 				if port == "" {
 					port = ":80"
